@@ -5,8 +5,9 @@
 import CV.GenStruct
 set_option linter.unusedSimpArgs false
 set_option linter.unusedVariables false
+set_option linter.constructorNameAsVariable false
 namespace CV.GenStruct
-open CV CV.GenFlat
+open CV CV.GenFlat CV.GenReg
 
 /-! ### labels defined in a piece of code -/
 
@@ -139,7 +140,7 @@ theorem step_jmp (L : Layout) (pre post : List GLine) (l : Lbl) (s : Cpu) (t : N
 end CV.GenStruct
 
 namespace CV.GenStruct
-open CV CV.GenFlat
+open CV CV.GenFlat CV.GenReg
 
 /-! ### label ranges of generated code -/
 
@@ -157,7 +158,7 @@ theorem Mono.refl (g : GState) : Mono g g := fun _ => Nat.le_refl _
 theorem Mono.trans {a b c : GState} (h1 : Mono a b) (h2 : Mono b c) : Mono a c :=
   fun k => Nat.le_trans (h1 k) (h2 k)
 
-@[simp] theorem ctr_flags (g : GState) (x : Option String) (c : Ctr) : ({ g with flags := x } : GState).ctr c = g.ctr c := by
+@[simp] theorem ctr_flags (g : GState) (x : Option FRef) (c : Ctr) : ({ g with flags := x } : GState).ctr c = g.ctr c := by
   cases c <;> rfl
 
 theorem NewIn.widen {a b c d : GState} {l : Lbl} (h : NewIn b c l) (h1 : Mono a b) (h2 : Mono c d) : NewIn a d l :=
@@ -190,16 +191,16 @@ theorem branchInstr_fresh (g : GState) (op : COp) (label : Lbl) : Fresh g (branc
 end CV.GenStruct
 
 namespace CV.GenStruct
-open CV CV.GenFlat
+open CV CV.GenFlat CV.GenReg
 
 theorem fresh_nolabels (g : GState) (c : List GLine) (h : labels c = []) : Fresh g (c, g) := by
   simp [Fresh, h, Mono.refl]
 
-@[simp] theorem fresh_flags_left (g : GState) (x : Option String) (r : List GLine × GState) :
+@[simp] theorem fresh_flags_left (g : GState) (x : Option FRef) (r : List GLine × GState) :
     Fresh { g with flags := x } r ↔ Fresh g r := by
   simp [Fresh, Mono, NewIn]
 
-theorem fresh_flags_right (g g' : GState) (x : Option String) (c : List GLine) :
+theorem fresh_flags_right (g g' : GState) (x : Option FRef) (c : List GLine) :
     Fresh g (c, { g' with flags := x }) ↔ Fresh g (c, g') := by
   simp [Fresh, Mono, NewIn]
 
@@ -208,18 +209,21 @@ theorem fresh_prepend (g : GState) (p : List GLine) (r : List GLine × GState) (
   simpa [Fresh, hp] using h
 
 
-theorem zeroTest_fresh (g : GState) (v : String) (op : COp) (label : Lbl) : Fresh g (zeroTest g v op label) := by
-  unfold zeroTest
-  by_cases h : g.flags = some v <;> cases op <;> simp [h, Fresh, Mono, NewIn]
+theorem labels_loadRef (ref : LV) : labels (loadRef ref) = [] := rfl
 
-theorem cmpTest_fresh (g : GState) (v : String) (right : Atom) (op : COp) (label : Lbl) :
+theorem zeroTest_fresh (g : GState) (v : LV) (op : COp) (label : Lbl) : Fresh g (zeroTest g v op label) := by
+  unfold zeroTest
+  by_cases h : g.flags = some v <;> cases op <;> simp [h, Fresh, Mono, NewIn, labels_loadRef]
+
+theorem cmpTest_fresh (g : GState) (v : LV) (right : Atom) (op : COp) (label : Lbl) :
     Fresh g (cmpTest g v right op label) := by
   unfold cmpTest
   have := branchInstr_fresh { g with flags := none } op label
   simp at this
-  exact fresh_prepend g [.ins .LDA (some (.var v)), .ins .CMP (some right)] _ rfl this
+  have hp : labels (cmpPre v right) = [] := by cases v <;> rfl
+  exact fresh_prepend g (cmpPre v right) _ hp this
 
-theorem genCondEx_fresh (g : GState) (l r : Atom) (op : COp) (negate : Bool) (label : Lbl) :
+theorem genCondEx_fresh (g : GState) (l r : RA) (op : COp) (negate : Bool) (label : Lbl) :
     Fresh g (genCondEx g l r op negate label) := by
   unfold genCondEx
   split
@@ -227,15 +231,23 @@ theorem genCondEx_fresh (g : GState) (l r : Atom) (op : COp) (negate : Bool) (la
   · split
     · exact zeroTest_fresh ..
     · exact cmpTest_fresh ..
+  · exact fresh_nolabels g [] rfl
+  · split
+    · exact zeroTest_fresh ..
+    · exact cmpTest_fresh ..
+  · split
+    · exact zeroTest_fresh ..
+    · exact cmpTest_fresh ..
+  · exact fresh_nolabels g [] rfl
 
-theorem labels_flatLines (s : FStmt) : labels (flatLines s) = [] := by
+theorem labels_flatLines (s : RStmt) : labels (flatLines s) = [] := by
   unfold flatLines
-  generalize template (none : Option Atom) (fun a => some a) s = t
+  generalize rtemplate (none : Option Atom) (fun a => some a) s = t
   induction t with
   | nil => rfl
   | cons x xs ih => simpa using ih
 
-theorem genFlat_fresh (g : GState) (s : FStmt) : Fresh g (genFlat g s) := by
+theorem genFlat_fresh (g : GState) (s : RStmt) : Fresh g (genFlat g s) := by
   simp [genFlat, Fresh, labels_flatLines, Mono, NewIn]
 
 
@@ -250,7 +262,7 @@ theorem fresh_append {g g1 : GState} {c1 : List GLine} {r : List GLine × GState
 
 theorem mono_cIf (g : GState) : Mono g { g with cIf := g.cIf + 1 } := by
   intro c; cases c <;> simp [GState.ctr]
-theorem mono_cWhile (g : GState) (x : Option String) : Mono g { g with cWhile := g.cWhile + 1, flags := x } := by
+theorem mono_cWhile (g : GState) (x : Option FRef) : Mono g { g with cWhile := g.cWhile + 1, flags := x } := by
   intro c; cases c <;> simp [GState.ctr]
 theorem mono_cFor (g : GState) : Mono g { g with cFor := g.cFor + 1 } := by
   intro c; cases c <;> simp [GState.ctr]
@@ -259,7 +271,7 @@ theorem mono_cFor (g : GState) : Mono g { g with cFor := g.cFor + 1 } := by
 theorem Fresh.rebase {g g0 : GState} {r : List GLine × GState} (hm : Mono g g0) (h : Fresh g0 r) : Fresh g r :=
   ⟨hm.trans h.1, fun l hl => (h.2 l hl).widen hm (Mono.refl _)⟩
 
-theorem fresh_of {g g0 g2 : GState} {mid code : List GLine} (x : Option String) (hm : Mono g g0)
+theorem fresh_of {g g0 g2 : GState} {mid code : List GLine} (x : Option FRef) (hm : Mono g g0)
     (h : Fresh g0 (mid, g2)) (hsub : ∀ l ∈ labels code, l ∈ labels mid ∨ NewIn g g2 l) :
     Fresh g (code, { g2 with flags := x }) := by
   refine ⟨?_, ?_⟩
